@@ -112,6 +112,22 @@ def step (p : Prog) (s : St) (t : Tid) (c : Bool) : Option St :=
   | some r => exec r.instr s t c
   | none => none
 
+/-- **Every way control can leave the guarded user function.**  Go runs the deferred calls of the frame (and of
+every frame below it) for a normal return, for a panic with ANY value (a string, an error value such as
+`http.ErrAbortHandler`, a runtime error) and for `runtime.Goexit` (then `recover()` yields nil and the goroutine
+ends after the deferred calls).  In the IR the three abnormal kinds are the environment choice `true` of the
+`user onPanic` row: control continues at the deferred code. -/
+inductive ExitKind where
+  | ret | panicValue | panicError | goexit
+  deriving Repr, DecidableEq
+
+def ExitKind.choice : ExitKind → Bool
+  | .ret => false
+  | _ => true
+
+/-- the skeleton token of the statement that writes a panic report (`rescue.Recover`, after its clean-ups). -/
+def reportTag : String := "call rescue.Recover"
+
 /-- permit annotation of a row index (false outside the table). -/
 def H (p : Prog) (q : Nat) : Bool :=
   match p[q]? with
@@ -341,7 +357,45 @@ def maxConnsNoDefer : Prog := [
   ⟨["else{", "call w.WriteHeader", "}"], .nop, false, false⟩,
   ⟨[], .halt, false, false⟩ ]
 
+/-- what `TaskRunner.Schedule` would be with `Done` handed to `rescue.Recover` as the clean-up and the slot given
+back by an OUTER defer (seeded change C05-8): `Done` runs first, the panic report next, the release last. Kept to
+show what `holdsWithinWg` rejects. -/
+def runnerDoneFirst : Prog := [
+  ⟨[], .branch 1 2, false, false⟩,
+  ⟨[], .goto 4, false, false⟩,
+  ⟨["call rp.waitGroup.Wait"], .wgWait, false, false⟩,
+  ⟨[], .goto 11, false, false⟩,
+  ⟨["call rp.waitGroup.Add"], .wgAdd, false, false⟩,
+  ⟨["send rp.limitChan"], .acquire, false, true⟩,
+  ⟨["go{", "call rp.run", "}"], .nop, true, true⟩,
+  ⟨["call task"], .user 8, true, true⟩,
+  ⟨["call rp.waitGroup.Done"], .wgDone, true, true⟩,           -- the clean-up of rescue.Recover
+  ⟨["call rescue.Recover"], .nop, true, false⟩,                -- the panic report: slot still held, Done done
+  ⟨["recv rp.limitChan"], .release, true, false⟩,              -- the outer defer
+  ⟨[], .halt, false, false⟩ ]
+
 end Programs
+
+/-! ### typed effect lists (compared by Tie.lean with the order of effects extracted from the Go source) -/
+
+/-- the property-relevant effect of an instruction (control-flow rows have none). -/
+inductive Eff where
+  | acquire | tryAcquire | release | tryRelease | wgAdd | wgDone | wgWait | user
+  deriving Repr, DecidableEq
+
+def Instr.eff : Instr → Option Eff
+  | .acquire => some .acquire
+  | .tryAcquire _ => some .tryAcquire
+  | .release => some .release
+  | .tryRelease => some .tryRelease
+  | .wgAdd => some .wgAdd
+  | .wgDone => some .wgDone
+  | .wgWait => some .wgWait
+  | .user _ => some .user
+  | _ => none
+
+/-- the effects of a site program in the syntactic order of its rows (= of the Go source). -/
+def Prog.effects (p : Prog) : List Eff := p.filterMap (·.instr.eff)
 
 /-! ## 2b. configuration decision tables -/
 
@@ -399,5 +453,16 @@ def Pool.getCreatePanics (p : Pool) (now : Nat) : Pool × GetResult × Bool :=
   match p.get now with
   | (p', .got item true d) => ({ p' with next := p.next }, .got item true d, true)
   | (p', res) => (p', res, false)
+
+/-- `Get` when the `destroy` callback PANICS on the first expired resource it is called for.  The node has been
+popped and `p.created--` has run (both BEFORE `p.destroy(head.item)`), the panic leaves through the deferred
+`Unlock`; the rest of the idle list is untouched and no resource is handed out.  Second component: the resource
+whose destroy panicked; `none`: the head is not expired (or there is none), destroy is not called and the call is a
+plain `get`. -/
+def Pool.getDestroyPanics (p : Pool) (now : Nat) : Pool × Option Nat :=
+  match p.idle with
+  | nd :: rest =>
+    if expired p.maxAge now nd then ({ p with created := p.created - 1, idle := rest }, some nd.item) else (p, none)
+  | [] => (p, none)
 
 end GoZero.C05
